@@ -29,7 +29,7 @@ impl RingItem {
         let mut new_block_hashes: Vec<SaitoHash> = vec![];
         let mut new_block_ids: Vec<u64> = vec![];
         let mut index_loop = 0;
-        let mut new_lc_pos = Some(0);
+        let mut new_lc_pos = None;
 
         for i in 0..self.block_ids.len() {
             if self.block_ids[i] == block_id && self.block_hashes[i] == hash {
